@@ -18,6 +18,38 @@ type netSeams struct {
 	HTTPPost      func(url, contentType string, body io.Reader) (*http.Response, error)
 }
 
+// LookupIP / LookupHost go through the ResolveIPAddr seam when one is installed
+// (one scripted lookup per call), so code that resolves names by another
+// entry point of package net is still answered by the simulated resolver.
+func LookupIP(host string) ([]net.IP, error) {
+	if s := seams.Load(); s != nil && s.ResolveIPAddr != nil {
+		a, err := s.ResolveIPAddr("ip", host)
+		if err != nil {
+			return nil, err
+		}
+		if a == nil || a.IP == nil {
+			return nil, &net.DNSError{Err: "no such host", Name: host, IsNotFound: true}
+		}
+		return []net.IP{a.IP}, nil
+	}
+	return net.LookupIP(host)
+}
+
+func LookupHost(host string) ([]string, error) {
+	if s := seams.Load(); s != nil && s.ResolveIPAddr != nil {
+		ips, err := LookupIP(host)
+		if err != nil {
+			return nil, err
+		}
+		out := make([]string, len(ips))
+		for i, ip := range ips {
+			out[i] = ip.String()
+		}
+		return out, nil
+	}
+	return net.LookupHost(host)
+}
+
 var seams atomic.Pointer[netSeams]
 
 // SetNetSeams installs the simulator's implementations (nil fields = original).
